@@ -134,7 +134,11 @@ impl MonitorSet {
                     }
                     for (k, e) in m.entries.iter().enumerate() {
                         let idx = m.index + 1 + k as u64;
-                        if e.index != idx || post.entry(idx) != Some(&ek(e)) {
+                        if e.index != idx {
+                            self.fail("append-not-contiguous", format!("leader {} of term {} emitted MsgAppend to {} anchored at index {} whose entry #{} has index {} (expected {}); {} entries, batch_append = {}", id, post.term, m.to, m.index, k, e.index, idx, m.entries.len(), post.batch));
+                            return;
+                        }
+                        if post.entry(idx) != Some(&ek(e)) {
                             self.fail("append-not-own-log", format!("leader {} of term {} emitted MsgAppend to {} whose entry #{} (index {}, term {}) is not entry {} of its log ({:?})", id, post.term, m.to, k, e.index, e.term, idx, post.entry(idx).map(|x| x.show())));
                             return;
                         }
